@@ -1,151 +1,518 @@
 import EV.Model.HeaderCache
 import EV.Props.C12
 
-/-! The header merkle cache stays consistent with the DB's block hashes under every interleaving
-of extensions in flight, back-outs and new blocks (fixed code); the pinned code does not. -/
+/-!
+C11, header proofs: lemmas about one request of `EV.HeaderCache` (the current code, `Cfg.fixed`).
+
+`PcOK` says what is known at each wait point of a request *provided no truncation happened since
+the counter was sampled* (`t = T` for the extension in flight, `t0 = T` for the iteration of
+`branch_and_root`): everything read so far is a slice of the reference chain `ref`, the cache
+already reaches `length`, the level prefix saved by `_level_for` is the level of `ref`.  A
+truncation makes the guard false for ever (`t ≤ T`), which is exactly what the two `truncations`
+tests of the code detect.
+-/
 namespace EV.HeaderCache
 open EV.Merkle
 
 variable {Node : Type} (H : Node → Node → Node)
 
-/-- what is known about an extension in flight -/
-def ExtOK (s : St Node) : Prop :=
-  match s.ext with
-  | none => True
-  | some e =>
-    e.truncAtStart = s.truncations →
-      (s.c.length < e.target ∧ e.start = s.c.leafStart s.c.length ∧
-       (∀ hs, e.hashes = some hs →
-          e.target ≤ s.src.length ∧ hs = srcSlice s.src e.start (e.target - e.start)))
+/-! ### slices of a growing chain -/
 
-structure Inv (s : St Node) : Prop where
-  cache : CacheInv H s.c s.src
-  ext : ExtOK s
-  truncLe : ∀ e, s.ext = some e → e.truncAtStart ≤ s.truncations
+theorem take_of_prefix {src ref : List Node} (h : src <+: ref) {k : Nat} (hk : k ≤ src.length) :
+    ref.take k = src.take k := by
+  obtain ⟨t, rfl⟩ := h
+  rw [List.take_append_of_le_length hk]
 
-theorem srcSlice_append (src ns : List Node) (start count : Nat) (h : start + count ≤ src.length) :
-    srcSlice (src ++ ns) start count = srcSlice src start count := by
+theorem srcSlice_of_prefix {src ref : List Node} (h : src <+: ref) (a n : Nat)
+    (hn : n ≤ src.length - a) : srcSlice src a n = srcSlice ref a n := by
+  obtain ⟨t, rfl⟩ := h
   simp only [srcSlice]
-  rw [List.drop_append_of_le_length (by omega), List.take_append_of_le_length (by simp; omega)]
+  by_cases h0 : n = 0
+  · subst h0; simp
+  · rw [List.drop_append_of_le_length (by omega), List.take_append_of_le_length (by simp; omega)]
 
-theorem writeExt_eq_extendTo (c : Cache Node) (src : List Node) (e : Ext Node)
-    (hlt : c.length < e.target) (hstart : e.start = c.leafStart c.length) :
-    writeExt H c e (srcSlice src e.start (e.target - e.start)) = (c.extendTo H src e.target).1 := by
+/-- `hs` is what a read `(a, n)` of `ref` returns, and `ref` is long enough for it -/
+def Slice (ref : List Node) (a n : Nat) (hs : List Node) : Prop :=
+  n ≤ ref.length - a ∧ hs = srcSlice ref a n
+
+theorem Slice.mono {ref ref' : List Node} {a n : Nat} {hs : List Node} (h : Slice ref a n hs)
+    (hp : ref <+: ref') : Slice ref' a n hs :=
+  ⟨by have := hp.length_le; have := h.1; omega, by rw [h.2]; exact srcSlice_of_prefix hp a n h.1⟩
+
+theorem readSrc_slice {src ref : List Node} (hp : src <+: ref) (a n : Nat) (hs : List Node)
+    (h : readSrc src a n = .got hs) : Slice ref a n hs := by
+  unfold readSrc at h
+  split at h
+  · next hle =>
+    injection h with h
+    exact ⟨by have := hp.length_le; omega, by rw [← h]; exact srcSlice_of_prefix hp a n hle⟩
+  · cases h
+
+theorem leafStart_dh {c c' : Cache Node} (h : c'.depthHigher = c.depthHigher) (x : Nat) :
+    c'.leafStart x = c.leafStart x := by simp only [Cache.leafStart, h]
+
+theorem segLen_dh {c c' : Cache Node} (h : c'.depthHigher = c.depthHigher) : c'.segLen = c.segLen := by
+  simp only [Cache.segLen, h]
+
+/-! ### the pieces of an answer -/
+
+/-- the direct path (`length < segment length`): the leaf read is the whole prefix -/
+theorem direct_eq (c : Cache Node) (ref hs : List Node) (len idx : Nat) (hsmall : len < c.segLen)
+    (hidx : idx < len)
+    (hsl : Slice ref (c.leafStart idx) (min c.segLen (len - c.leafStart idx)) hs) :
+    hs = ref.take len := by
+  rw [segLen_eq] at hsmall
+  have h0 : c.leafStart idx = 0 := by
+    rw [leafStart_eq, Nat.div_eq_of_lt (by omega), Nat.zero_mul]
+  rw [hsl.2, h0, segLen_eq, Nat.sub_zero, Nat.min_eq_right (by omega)]
+  simp [srcSlice]
+
+/-- the cached path: the level of the first `len` hashes and the leaf segment give the from-scratch
+    branch and root -/
+theorem fromLevel_eq [DecidableEq Node] (c : Cache Node) (ref hs : List Node) (len idx : Nat)
+    (hbig : ¬ len < c.segLen) (hidx : idx < len) (hlen : len ≤ ref.length)
+    (hsl : Slice ref (c.leafStart idx) (min c.segLen (len - c.leafStart idx)) hs) :
+    branchAndRootFromLevel H (.list (lvl H c.depthHigher (ref.take len))) (.list hs) (.int idx)
+        c.depthHigher false =
+      branchAndRoot H (ref.take len) (.int idx) none false := by
+  rw [segLen_eq] at hbig
+  have htl : (ref.take len).length = len := by rw [List.length_take]; omega
+  have hslice : hs = ((ref.take len).drop (idx / 2 ^ c.depthHigher * 2 ^ c.depthHigher)).take
+      (2 ^ c.depthHigher) := by
+    rw [hsl.2, leafStart_eq, segLen_eq, srcSlice, List.drop_take, List.take_take]
+  rw [hslice]
+  exact from_level_eq H false (ref.take len) c.depthHigher idx (by omega)
+    (by rw [htl]; exact pow_le_clog (by omega))
+
+/-- what `_level_for` assembles: saved level prefix ++ level of the final partial segment -/
+theorem level_rebuild (c : Cache Node) (ref : List Node) (len : Nat) (hlen : len ≤ ref.length) :
+    lvl H c.depthHigher (ref.take (c.leafStart len)) ++
+        lvl H c.depthHigher (srcSlice ref (c.leafStart len) (min c.segLen (len - c.leafStart len))) =
+      lvl H c.depthHigher (ref.take len) := by
+  have hp : 0 < 2 ^ c.depthHigher := Nat.pow_pos (by omega)
+  have hle := leafStart_le c len
+  have hmod : len - c.leafStart len < 2 ^ c.depthHigher := by
+    rw [leafStart_eq]
+    have := div_mul_add_mod len (2 ^ c.depthHigher)
+    have := Nat.mod_lt len hp
+    omega
+  rw [segLen_eq, Nat.min_eq_right (by omega)]
+  have h2 : ref.take len = ref.take (c.leafStart len) ++ srcSlice ref (c.leafStart len) (len - c.leafStart len) := by
+    have : len = c.leafStart len + (len - c.leafStart len) := by omega
+    conv => lhs; rw [this, List.take_add]
+    rfl
+  have hl : (ref.take (c.leafStart len)).length = len / 2 ^ c.depthHigher * 2 ^ c.depthHigher := by
+    rw [List.length_take, ← leafStart_eq]; omega
+  rw [h2, lvl_append H c.depthHigher _ _ _ hl]
+
+/-- the level prefix `_level_for` saves before its read -/
+theorem pre_eq (c : Cache Node) (ref : List Node) (len : Nat) (hinv : CacheInv H c ref)
+    (hlen : len ≤ c.length) :
+    c.level.take (len >>> c.depthHigher) = lvl H c.depthHigher (ref.take (c.leafStart len)) := by
+  have hle := leafStart_le c len
+  have hcl := hinv.len
+  rw [hinv.level, Nat.shiftRight_eq_div_pow,
+    lvl_take_aligned H c.depthHigher _ _ (by rw [List.length_take, ← leafStart_eq]; omega),
+    List.take_take, ← leafStart_eq, Nat.min_eq_left (by omega)]
+
+/-- the two assignments at the end of `_extend_to`, when its test passes, are the atomic
+    `_extend_to` of the C12 model on the reference chain -/
+theorem write_eq (c : Cache Node) (ref hs lv : List Node) (start len : Nat)
+    (hlt : c.length < len) (hstart : start = c.leafStart c.length)
+    (hhs : hs = srcSlice ref start (len - start))
+    (hlv : Merkle.level H hs c.depthHigher = .ok lv) :
+    writeExt c start len lv = (c.extendTo H ref len).1 := by
   unfold writeExt Cache.extendTo
-  have : ¬ e.target ≤ c.length := by omega
-  simp only [this, if_false, hstart]
-  split <;> simp_all
+  have : ¬ len ≤ c.length := by omega
+  subst hstart hhs
+  simp only [this, if_false, hlv]
 
-theorem inv_step (s : St Node) (ev : Ev Node) (hinv : Inv H s) : Inv H (step H true s ev) := by
-  cases ev with
-  | extStart l =>
-    simp only [step]
-    split
-    · exact hinv
-    · next hl =>
-      split
-      · exact hinv
-      · next hnone =>
-        refine ⟨hinv.cache, ?_, ?_⟩
-        · simp only [ExtOK]
-          intro _
-          exact ⟨by omega, by first | rfl | trivial, by intro hs h; simp at h⟩
-        · intro e he; simp at he; subst he; exact Nat.le_refl _
-  | extRead =>
-    simp only [step]
-    split
-    · next e he =>
-      split
-      · exact hinv
-      · next hnone =>
-        split
-        · next htl =>
-          refine ⟨hinv.cache, ?_, ?_⟩
-          · have hold := hinv.ext
-            simp only [ExtOK, he] at hold ⊢
-            intro ht
-            obtain ⟨h1, h2, _⟩ := hold ht
-            exact ⟨h1, h2, by intro hs h; simp at h; exact ⟨htl, h.symm⟩⟩
-          · intro e' he'; simp at he'; subst he'; exact hinv.truncLe e he
-        · exact ⟨hinv.cache, by simp [ExtOK], by intro e' he'; simp at he'⟩
-    · exact hinv
-  | extFinish =>
-    simp only [step]
-    split
-    · next e he =>
-      split
-      · exact hinv
-      · next hs hhs =>
-        by_cases ht : e.truncAtStart = s.truncations
-        · -- no truncation since the start: the write is exactly the atomic `_extend_to`
-          have hb : (true && e.truncAtStart != s.truncations) = false := by simp [ht]
-          simp only [hb, Bool.false_eq_true, if_false]
-          have hold := hinv.ext
-          simp only [ExtOK, he] at hold
-          obtain ⟨h1, h2, h3⟩ := hold ht
-          obtain ⟨h4, h5⟩ := h3 hs hhs
-          rw [h5, writeExt_eq_extendTo H s.c s.src e h1 h2]
-          have := cache_extend H s.c s.src e.target hinv.cache h4
-          exact ⟨this.2.1, by simp [ExtOK], by intro e' he'; simp at he'⟩
-        · have hb : (true && e.truncAtStart != s.truncations) = true := by simp [ht]
-          simp only [hb, if_true]
-          split
-          · exact ⟨hinv.cache, by simp [ExtOK], by intro e' he'; simp at he'⟩
-          · next hl =>
-            refine ⟨hinv.cache, ?_, ?_⟩
-            · simp only [ExtOK]
-              intro _
-              exact ⟨by omega, by first | rfl | trivial, by intro hs' h; simp at h⟩
-            · intro e' he'; simp at he'; subst he'; exact Nat.le_refl _
-    · exact hinv
-  | backup n =>
-    simp only [step]
-    split
-    · next hn =>
-      obtain ⟨hn0, hnl⟩ := hn
-      have htr := cache_truncate H s.c s.src (.int n) hinv.cache
-      have hlen := htr.2 n rfl (by omega)
-      refine ⟨?_, ?_, ?_⟩
-      · apply cache_source_change H _ s.src (s.src.take n) htr.1
-        · simp only [List.length_take]; simp at hlen; omega
-        · simp at hlen
-          rw [List.take_take, Nat.min_eq_left (by omega)]
-      · -- any extension in flight started before this truncation
-        simp only [ExtOK]
-        split
-        · trivial
-        · next e he =>
-          intro ht
-          have := hinv.truncLe e he
-          omega
-      · intro e he; have := hinv.truncLe e he; simp only; omega
-    · exact hinv
-  | append ns =>
-    simp only [step]
-    refine ⟨?_, ?_, hinv.truncLe⟩
-    · apply cache_source_change H _ s.src _ hinv.cache
-      · simp only [List.length_append]; have := hinv.cache.len; omega
-      · rw [List.take_append_of_le_length hinv.cache.len]
-    · have hold := hinv.ext
-      simp only [ExtOK] at hold ⊢
-      split
-      · trivial
-      · next e he =>
-        simp only [he] at hold
+/-! ### what is known at each wait point -/
+
+def PcOK (c : Cache Node) (T : Nat) (ref : List Node) (len idx t0 : Nat) : PC Node → Prop
+  | .ext t cl start rd =>
+    t ≤ T ∧ start = c.leafStart cl ∧ cl < len ∧
+      (t = T → ∀ hs, rd = .got hs → Slice ref start (len - start) hs)
+  | .leaf rd =>
+    t0 = T → len ≤ c.length ∧
+      ∀ hs, rd = .got hs → Slice ref (c.leafStart idx) (min c.segLen (len - c.leafStart idx)) hs
+  | .lvl pre leaf rd =>
+    t0 = T → len ≤ c.length ∧ ¬ len < c.segLen ∧
+      Slice ref (c.leafStart idx) (min c.segLen (len - c.leafStart idx)) leaf ∧
+      pre = lvl H c.depthHigher (ref.take (c.leafStart len)) ∧
+      ∀ hs, rd = .got hs → Slice ref (c.leafStart len) (min c.segLen (len - c.leafStart len)) hs
+  | .done _ => True
+
+/-- everything the proof knows about one request -/
+structure ReqOK (c : Cache Node) (T : Nat) (src ref : List Node) (r : Req Node) : Prop where
+  t0 : r.t0 ≤ T
+  idx : r.active = true → r.index < r.length
+  pc : PcOK H c T ref r.length r.index r.t0 r.pc
+  safe : r.Safe H
+  head : r.active = true → r.seen.head? = some src
+  chain : r.active = true → (r.length ≤ src.length ∨ ref ∈ r.seen)
+  nobo : r.bo = false → ∀ S ∈ r.seen, ∀ h, r.seen.head? = some h → S <+: h
+
+/-- the cache only grew (same `depth_higher`): nothing known is lost -/
+theorem PcOK.mono {c c' : Cache Node} {T : Nat} {ref : List Node} {len idx t0 : Nat} {pc : PC Node}
+    (hd : c'.depthHigher = c.depthHigher) (hl : c.length ≤ c'.length)
+    (h : PcOK H c T ref len idx t0 pc) : PcOK H c' T ref len idx t0 pc := by
+  cases pc with
+  | ext t cl start rd =>
+    simp only [PcOK, leafStart_dh hd] at h ⊢
+    exact h
+  | leaf rd =>
+    simp only [PcOK, leafStart_dh hd, segLen_dh hd] at h ⊢
+    intro ht
+    exact ⟨by have := (h ht).1; omega, (h ht).2⟩
+  | lvl pre leaf rd =>
+    simp only [PcOK, leafStart_dh hd, segLen_dh hd, hd] at h ⊢
+    intro ht
+    obtain ⟨h1, h2⟩ := h ht
+    exact ⟨by omega, h2⟩
+  | done r => trivial
+
+theorem ReqOK.mono {c c' : Cache Node} {T : Nat} {src ref : List Node} {r : Req Node}
+    (hd : c'.depthHigher = c.depthHigher) (hl : c.length ≤ c'.length)
+    (h : ReqOK H c T src ref r) : ReqOK H c' T src ref r :=
+  { h with pc := h.pc.mono H hd hl }
+
+/-- the reference chain grew: nothing known is lost -/
+theorem PcOK.grow {c : Cache Node} {T : Nat} {ref ref' : List Node} {len idx t0 : Nat} {pc : PC Node}
+    (hp : ref <+: ref') (hc : c.length ≤ ref.length)
+    (h : PcOK H c T ref len idx t0 pc) : PcOK H c T ref' len idx t0 pc := by
+  cases pc with
+  | ext t cl start rd =>
+    simp only [PcOK] at h ⊢
+    exact ⟨h.1, h.2.1, h.2.2.1, fun ht hs hrd => (h.2.2.2 ht hs hrd).mono hp⟩
+  | leaf rd =>
+    simp only [PcOK] at h ⊢
+    intro ht
+    exact ⟨(h ht).1, fun hs hrd => ((h ht).2 hs hrd).mono hp⟩
+  | lvl pre leaf rd =>
+    simp only [PcOK] at h ⊢
+    intro ht
+    obtain ⟨h1, h2, h3, h4, h5⟩ := h ht
+    refine ⟨h1, h2, h3.mono hp, ?_, fun hs hrd => (h5 hs hrd).mono hp⟩
+    have := leafStart_le c len
+    rw [h4, take_of_prefix hp (by omega)]
+  | done r => trivial
+
+/-- a truncation happened: every guard is false from now on -/
+theorem PcOK.bump {c c' : Cache Node} {T : Nat} {ref ref' : List Node} {len idx t0 : Nat} {pc : PC Node}
+    (hd : c'.depthHigher = c.depthHigher) (ht0 : t0 ≤ T)
+    (h : PcOK H c T ref len idx t0 pc) : PcOK H c' (T + 1) ref' len idx t0 pc := by
+  cases pc with
+  | ext t cl start rd =>
+    simp only [PcOK, leafStart_dh hd] at h ⊢
+    exact ⟨by omega, h.2.1, h.2.2.1, fun ht => by omega⟩
+  | leaf rd =>
+    simp only [PcOK]
+    intro ht; omega
+  | lvl pre leaf rd =>
+    simp only [PcOK]
+    intro ht; omega
+  | done r => trivial
+
+/-! ### a worker thread performs the read of a request -/
+
+theorem reqOK_perform {c : Cache Node} {T : Nat} {src ref : List Node} {r : Req Node}
+    (hp : src <+: ref) (h : ReqOK H c T src ref r) : ReqOK H c T src ref (performReq c src r) := by
+  obtain ⟨len, idx, t0, pc, seen, bo⟩ := r
+  obtain ⟨h1, h2, h3, h4, h5, h6, h7⟩ := h
+  cases pc with
+  | ext t cl start rd =>
+    cases rd with
+    | issued =>
+      simp only [performReq, readArgs, setRd]
+      refine ⟨h1, h2, ?_, trivial, h5, h6, h7⟩
+      simp only [PcOK] at h3 ⊢
+      exact ⟨h3.1, h3.2.1, h3.2.2.1, fun _ hs hrd => readSrc_slice hp _ _ hs hrd⟩
+    | got hs => exact ⟨h1, h2, h3, h4, h5, h6, h7⟩
+    | short => exact ⟨h1, h2, h3, h4, h5, h6, h7⟩
+  | leaf rd =>
+    cases rd with
+    | issued =>
+      simp only [performReq, readArgs, setRd]
+      refine ⟨h1, h2, ?_, trivial, h5, h6, h7⟩
+      simp only [PcOK] at h3 ⊢
+      exact fun ht => ⟨(h3 ht).1, fun hs hrd => readSrc_slice hp _ _ hs hrd⟩
+    | got hs => exact ⟨h1, h2, h3, h4, h5, h6, h7⟩
+    | short => exact ⟨h1, h2, h3, h4, h5, h6, h7⟩
+  | lvl pre leaf rd =>
+    cases rd with
+    | issued =>
+      simp only [performReq, readArgs, setRd]
+      refine ⟨h1, h2, ?_, trivial, h5, h6, h7⟩
+      simp only [PcOK] at h3 ⊢
+      intro ht
+      obtain ⟨a1, a2, a3, a4, _⟩ := h3 ht
+      exact ⟨a1, a2, a3, a4, fun hs hrd => readSrc_slice hp _ _ hs hrd⟩
+    | got hs => exact ⟨h1, h2, h3, h4, h5, h6, h7⟩
+    | short => exact ⟨h1, h2, h3, h4, h5, h6, h7⟩
+  | done res => exact ⟨h1, h2, h3, h4, h5, h6, h7⟩
+
+/-! ### the coroutine of a request resumes -/
+
+@[simp] theorem fixed_extFix : Cfg.fixed.extFix = true := rfl
+@[simp] theorem fixed_retry : Cfg.fixed.retry = true := rfl
+@[simp] theorem fixed_lowerFirst : Cfg.fixed.lowerFirst = true := rfl
+
+/-- `_extend_to` at its test of `self.length`: whatever the request knew before is not needed -/
+theorem reqOK_enterExtend {c : Cache Node} {T : Nat} {src ref : List Node} {r : Req Node}
+    (h1 : r.t0 ≤ T) (h2 : r.index < r.length) (h5 : r.seen.head? = some src)
+    (h6 : r.length ≤ src.length ∨ ref ∈ r.seen)
+    (h7 : r.bo = false → ∀ S ∈ r.seen, ∀ h, r.seen.head? = some h → S <+: h) :
+    ReqOK H c T src ref (enterExtend c T r) := by
+  obtain ⟨len, idx, t0, pc, seen, bo⟩ := r
+  unfold enterExtend
+  split
+  · next hle =>
+    refine ⟨h1, fun _ => h2, ?_, trivial, fun _ => h5, fun _ => h6, h7⟩
+    simp only [PcOK]
+    exact fun _ => ⟨hle, fun hs hrd => by cases hrd⟩
+  · next hle =>
+    refine ⟨h1, fun _ => h2, ?_, trivial, fun _ => h5, fun _ => h6, h7⟩
+    simp only [PcOK]
+    exact ⟨Nat.le_refl _, trivial, by simp only at hle; omega, fun _ hs hrd => by cases hrd⟩
+
+theorem reqOK_beginIter {c : Cache Node} {T : Nat} {src ref : List Node} {r : Req Node}
+    (hact : r.active = true) (h : ReqOK H c T src ref r) :
+    ReqOK H c T src ref (beginIter c T r) :=
+  reqOK_enterExtend H (r := { r with t0 := T }) (Nat.le_refl _) (h.idx hact) (h.head hact)
+    (h.chain hact) h.nobo
+
+/-- a request ends with an exception -/
+theorem reqOK_error {c : Cache Node} {T : Nat} {src ref : List Node} {r : Req Node} (e : Err)
+    (h : ReqOK H c T src ref r) : ReqOK H c T src ref { r with pc := .done (.error e) } :=
+  ⟨h.t0, fun ha => by simp [Req.active] at ha, trivial, trivial, fun ha => by simp [Req.active] at ha,
+    fun ha => by simp [Req.active] at ha, h.nobo⟩
+
+/-- the end of an iteration whose result — if no truncation happened during the iteration — is
+    the from-scratch result on the reference chain -/
+theorem reqOK_finish {c : Cache Node} {T : Nat} {src ref : List Node} {r : Req Node}
+    (hp : src <+: ref) (hact : r.active = true) (h : ReqOK H c T src ref r)
+    (res : Except PyExc (List (Elt Node) × Node))
+    (hres : r.t0 = T → r.length ≤ ref.length ∧
+      res = branchAndRoot H (ref.take r.length) (.int r.index) none false) :
+    ReqOK H c T src ref (finish Cfg.fixed c T r res) := by
+  unfold finish
+  cases res with
+  | error e => exact reqOK_error H (.py e) h
+  | ok x =>
+    simp only [fixed_retry, Bool.true_and]
+    by_cases ht : T = r.t0
+    · have hb : (T != r.t0) = false := by simp [ht]
+      simp only [hb, Bool.false_eq_true, if_false]
+      obtain ⟨hlen, hx⟩ := hres ht.symm
+      refine ⟨h.t0, fun ha => by simp [Req.active] at ha, trivial, ?_,
+        fun ha => by simp [Req.active] at ha, fun ha => by simp [Req.active] at ha, h.nobo⟩
+      show ∃ S ∈ r.seen, r.length ≤ S.length ∧
+        branchAndRoot H (S.take r.length) (.int r.index) none false = .ok (x.1, x.2)
+      rcases h.chain hact with hc | hc
+      · refine ⟨src, List.mem_of_mem_head? (h.head hact), hc, ?_⟩
+        rw [← take_of_prefix hp hc, ← hx]
+      · exact ⟨ref, hc, hlen, hx.symm⟩
+    · have hb : (T != r.t0) = true := by simp [ht]
+      simp only [hb, if_true]
+      exact reqOK_beginIter H hact h
+
+/-- **delivery of a read result** (current code): the cache stays consistent with the reference
+    chain, only grows, and the request's knowledge is re-established at its next wait point — or
+    it ends with an error, with a safe answer, or starts over -/
+theorem deliver_ok [DecidableEq Node] {c : Cache Node} {T : Nat} {src ref : List Node} {r : Req Node}
+    (hinv : CacheInv H c ref) (hp : src <+: ref) (h : ReqOK H c T src ref r) :
+    CacheInv H (deliverReq H Cfg.fixed c T r).1 ref ∧
+    (deliverReq H Cfg.fixed c T r).1.depthHigher = c.depthHigher ∧
+    c.length ≤ (deliverReq H Cfg.fixed c T r).1.length ∧
+    ReqOK H (deliverReq H Cfg.fixed c T r).1 T src ref (deliverReq H Cfg.fixed c T r).2 := by
+  obtain ⟨len, idx, t0, pc, seen, bo⟩ := r
+  cases pc with
+  | ext t cl start rd =>
+    cases rd with
+    | issued => exact ⟨hinv, rfl, Nat.le_refl _, h⟩
+    | short => exact ⟨hinv, rfl, Nat.le_refl _, reqOK_error H .dbError h⟩
+    | got hs =>
+      have hpc := h.pc
+      simp only [PcOK] at hpc
+      obtain ⟨a1, a2, a3, a4⟩ := hpc
+      have hact : (Req.mk len idx t0 (.ext t cl start (.got hs)) seen bo).active = true := rfl
+      simp only [deliverReq, fixed_extFix, if_true]
+      by_cases hg : t = T ∧ cl = c.length
+      · rw [if_pos hg]
+        obtain ⟨hg1, hg2⟩ := hg
+        obtain ⟨b1, b2⟩ := a4 hg1 hs rfl
+        rw [level_eq']
+        simp only
+        subst hg2
+        have hlen : len ≤ ref.length := by have := leafStart_le c c.length; omega
+        rw [write_eq H c ref hs _ start len a3 a2 b2 (level_eq' H hs _)]
+        obtain ⟨_, e2, e3, e4⟩ := extendTo_inv H c ref len hinv hlen
+        refine ⟨e2, e4, by rw [e3]; omega, ?_⟩
+        exact reqOK_enterExtend H h.t0 (h.idx hact) (h.head hact) (h.chain hact) h.nobo
+      · rw [if_neg hg]
+        exact ⟨hinv, rfl, Nat.le_refl _,
+          reqOK_enterExtend H h.t0 (h.idx hact) (h.head hact) (h.chain hact) h.nobo⟩
+  | leaf rd =>
+    cases rd with
+    | issued => exact ⟨hinv, rfl, Nat.le_refl _, h⟩
+    | short => exact ⟨hinv, rfl, Nat.le_refl _, reqOK_error H .dbError h⟩
+    | got hs =>
+      have hpc := h.pc
+      simp only [PcOK] at hpc
+      have hact : (Req.mk len idx t0 (.leaf (.got hs)) seen bo).active = true := rfl
+      simp only [deliverReq]
+      by_cases hsmall : len < c.segLen
+      · rw [if_pos hsmall]
+        refine ⟨hinv, rfl, Nat.le_refl _, reqOK_finish H hp hact h _ ?_⟩
         intro ht
-        obtain ⟨h1, h2, h3⟩ := hold ht
-        refine ⟨h1, h2, ?_⟩
-        intro hs hhs
-        obtain ⟨h4, h5⟩ := h3 hs hhs
-        refine ⟨by simp only [List.length_append]; omega, ?_⟩
-        rw [h5, srcSlice_append]
-        have : e.start ≤ s.c.length := by
-          rw [h2, leafStart_eq]; exact Nat.div_mul_le_self _ _
-        omega
+        obtain ⟨a1, a2⟩ := hpc ht
+        have hlen : len ≤ ref.length := by have := hinv.len; omega
+        refine ⟨hlen, ?_⟩
+        rw [direct_eq c ref hs len idx hsmall (h.idx hact) (a2 hs rfl)]
+      · rw [if_neg hsmall]
+        by_cases heq : len = c.length
+        · rw [if_pos heq]
+          refine ⟨hinv, rfl, Nat.le_refl _, reqOK_finish H hp hact h _ ?_⟩
+          intro ht
+          obtain ⟨a1, a2⟩ := hpc ht
+          have hlen : len ≤ ref.length := by have := hinv.len; omega
+          refine ⟨hlen, ?_⟩
+          rw [hinv.level, ← heq]
+          exact fromLevel_eq H c ref hs len idx hsmall (h.idx hact) hlen (a2 hs rfl)
+        · rw [if_neg heq]
+          refine ⟨hinv, rfl, Nat.le_refl _, h.t0, fun _ => h.idx hact, ?_, trivial,
+            fun _ => h.head hact, fun _ => h.chain hact, h.nobo⟩
+          simp only [PcOK]
+          intro ht
+          obtain ⟨a1, a2⟩ := hpc ht
+          exact ⟨a1, hsmall, a2 hs rfl, pre_eq H c ref len hinv a1, fun hs' hrd => by cases hrd⟩
+  | lvl pre leaf rd =>
+    cases rd with
+    | issued => exact ⟨hinv, rfl, Nat.le_refl _, h⟩
+    | short => exact ⟨hinv, rfl, Nat.le_refl _, reqOK_error H .dbError h⟩
+    | got hs =>
+      have hpc := h.pc
+      simp only [PcOK] at hpc
+      have hact : (Req.mk len idx t0 (.lvl pre leaf (.got hs)) seen bo).active = true := rfl
+      simp only [deliverReq]
+      rw [level_eq']
+      simp only
+      refine ⟨hinv, trivial, Nat.le_refl _, reqOK_finish H hp hact h _ ?_⟩
+      intro ht
+      obtain ⟨a1, a2, a3, a4, a5⟩ := hpc ht
+      have hlen : len ≤ ref.length := by have := hinv.len; omega
+      refine ⟨hlen, ?_⟩
+      rw [a4, (a5 hs rfl).2, level_rebuild H c ref len hlen]
+      exact fromLevel_eq H c ref leaf len idx a2 (h.idx hact) hlen a3
+  | done res => exact ⟨hinv, rfl, Nat.le_refl _, h⟩
 
-theorem inv_run (s : St Node) (evs : List (Ev Node)) (hinv : Inv H s) : Inv H (run H true s evs) := by
-  induction evs generalizing s with
-  | nil => exact hinv
-  | cons ev evs ih => exact ih _ (inv_step H s ev hinv)
+/-! ### DB events seen from one request -/
+
+theorem see_active (S : List Node) (r : Req Node) (h : r.active = true) :
+    r.see S = { r with seen := S :: r.seen } := by simp [Req.see, h]
+
+theorem see_inactive (S : List Node) (r : Req Node) (h : r.active = false) : r.see S = r := by
+  simp [Req.see, h]
+
+theorem markBo_active (r : Req Node) (h : r.active = true) : r.markBo = { r with bo := true } := by
+  simp [Req.markBo, h]
+
+theorem markBo_inactive (r : Req Node) (h : r.active = false) : r.markBo = r := by
+  simp [Req.markBo, h]
+
+/-- a finished request is not affected by anything -/
+theorem reqOK_inactive {c c' : Cache Node} {T T' : Nat} {src src' ref ref' : List Node} {r : Req Node}
+    (hin : r.active = false) (hT : T ≤ T') (h : ReqOK H c T src ref r) :
+    ReqOK H c' T' src' ref' r := by
+  have hno : ∀ {P : Prop}, r.active = true → P := fun ha => by rw [hin] at ha; cases ha
+  refine ⟨by have := h.t0; omega, hno, ?_, h.safe, hno, hno, h.nobo⟩
+  obtain ⟨len, idx, t0, pc, seen, bo⟩ := r
+  cases pc with
+  | done res => trivial
+  | ext t cl start rd => cases hin
+  | leaf rd => cases hin
+  | lvl pre leaf rd => cases hin
+
+theorem safe_of_active {r : Req Node} (h : r.active = true) : r.Safe H := by
+  obtain ⟨len, idx, t0, pc, seen, bo⟩ := r
+  cases pc with
+  | done res => cases h
+  | ext t cl start rd => trivial
+  | leaf rd => trivial
+  | lvl pre leaf rd => trivial
+
+/-- new blocks (no back-out half done, so the reference chain is the visible chain) -/
+theorem reqOK_append {c : Cache Node} {T : Nat} {src : List Node} {r : Req Node} (ns : List Node)
+    (hc : c.length ≤ src.length) (h : ReqOK H c T src src r) :
+    ReqOK H c T (src ++ ns) (src ++ ns) (r.see (src ++ ns)) := by
+  by_cases hact : r.active = true
+  · rw [see_active _ _ hact]
+    refine ⟨h.t0, h.idx, h.pc.grow H (List.prefix_append _ _) hc, safe_of_active H hact,
+      fun _ => rfl, fun _ => Or.inr (List.mem_cons_self ..), ?_⟩
+    intro hbo S hS hd hhd
+    simp only [List.head?_cons, Option.some.injEq] at hhd
+    subst hhd
+    rcases List.mem_cons.mp hS with rfl | hS
+    · exact List.prefix_refl _
+    · exact (h.nobo hbo S hS src (h.head hact)).trans (List.prefix_append _ _)
+  · have hin : r.active = false := by simpa using hact
+    rw [see_inactive _ _ hin]
+    exact reqOK_inactive H hin (Nat.le_refl _) h
+
+/-- first half of a back-out of the current code: the visible chain is cut, the reference chain
+    (what the cache is judged against) stays -/
+theorem reqOK_lower {c : Cache Node} {T : Nat} {src : List Node} {r : Req Node} (n : Nat)
+    (h : ReqOK H c T src src r) :
+    ReqOK H c T (src.take n) src ((r.see (src.take n)).markBo) := by
+  by_cases hact : r.active = true
+  · rw [see_active _ _ hact, markBo_active _ (by exact hact)]
+    refine ⟨h.t0, h.idx, h.pc, safe_of_active H hact, fun _ => rfl,
+      fun _ => Or.inr (List.mem_cons_of_mem _ (List.mem_of_mem_head? (h.head hact))), ?_⟩
+    intro hbo
+    cases hbo
+  · have hin : r.active = false := by simpa using hact
+    rw [see_inactive _ _ hin, markBo_inactive _ hin]
+    exact reqOK_inactive H hin (Nat.le_refl _) h
+
+/-- second half of a back-out of the current code: `truncate` and the counter; the reference chain
+    becomes the visible chain -/
+theorem reqOK_trunc {c c' : Cache Node} {T : Nat} {src ref : List Node} {r : Req Node}
+    (hd : c'.depthHigher = c.depthHigher) (h : ReqOK H c T src ref r) :
+    ReqOK H c' (T + 1) src src r.markBo := by
+  by_cases hact : r.active = true
+  · rw [markBo_active _ hact]
+    refine ⟨by have := h.t0; show r.t0 ≤ T + 1; omega, h.idx, h.pc.bump H hd h.t0,
+      safe_of_active H hact, h.head,
+      fun _ => Or.inr (List.mem_of_mem_head? (h.head hact)), ?_⟩
+    intro hbo
+    cases hbo
+  · have hin : r.active = false := by simpa using hact
+    rw [markBo_inactive _ hin]
+    exact reqOK_inactive H hin (Nat.le_succ _) h
+
+/-- a new request: refused, or at its first wait point -/
+theorem reqOK_new (c : Cache Node) (T : Nat) (src ref : List Node) (b : Bool) (cp height : Nat) :
+    ReqOK H c T src ref (newReq c T src b cp height) := by
+  unfold newReq
+  split
+  · next hr =>
+    exact reqOK_enterExtend H (r := ⟨cp + 1, height, T, .done .refused, [src], b⟩)
+      (Nat.le_refl _) (by show height < cp + 1; omega) rfl
+      (Or.inl (by show cp + 1 ≤ src.length; omega))
+      (by
+        intro _ S hS hd hhd
+        simp only [List.mem_singleton] at hS
+        simp only [List.head?_cons, Option.some.injEq] at hhd
+        subst hS hhd
+        exact List.prefix_refl _)
+  · have hno : ∀ {P : Prop}, (⟨cp + 1, height, T, .done .refused, [src], b⟩ : Req Node).active = true → P :=
+      fun ha => by cases ha
+    refine ⟨Nat.le_refl _, hno, trivial, trivial, hno, hno, ?_⟩
+    intro _ S hS hd hhd
+    simp only [List.mem_singleton] at hS
+    simp only [List.head?_cons, Option.some.injEq] at hhd
+    subst hS hhd
+    exact List.prefix_refl _
 
 end EV.HeaderCache
